@@ -40,3 +40,24 @@ def families(tier, seed):
     if tier == "quick":
         return [("pm", seed, 600, ["k"]), ("pm", seed, 500, ["c07"])]
     return [("pm", seed, 4000, ["k"]), ("pm", seed, 4000, ["c07"])]
+
+
+# ------------------------------------------------------------------------------------------------------------------------------
+# COMPOSED end-to-end model (branch compose; Model/Compose.lean, notes/compose.md) — purely additive block.
+# Primitive setup only on the K line; envelope, jsa_raw, normalisations, jsa and jsi are recomputed through ALL layers
+# (Sellmeier → Fresnel → beams → Snell → walk-off → poling → integrand → Simpson → envelope/support → normalisation).
+# Observed worst: envelope and normalisations bit-for-bit, jsa_raw / jsa 4.4e-16 and jsi 7.4e-16 of the absolute quadrature
+# scale (3 seeds × 3000 setups × 4 pairs); the singles function (2-D Simpson, rayon sum, no absolute-sum scale available from
+# the crate) ≤ 1e-10 typical, 2.9e-8 at one cancellation-dominated point.
+OPS = set(OPS) | {"cmp_pump_amp", "cmp_jsa_raw", "cmp_norm", "cmp_jsa", "cmp_jsi", "cmp_pm_singles", "cmp_jsi_singles"}
+TOL = dict(TOL)
+TOL.update({"cmp_pump_amp": ("ulp", 4), "cmp_jsa_raw": ("csum", 5e-14), "cmp_norm": ("ulp", 16), "cmp_jsa": ("csum", 5e-14),
+            "cmp_jsi": ("csum", 1e-13), "cmp_pm_singles": ("rel", 1e-6), "cmp_jsi_singles": ("rel", 1e-6)})
+RULE += ' | family compose/c07: the same primitive-setup generator × 4 frequency pairs (centre; detuned; on the pump line ωs+ωi = ωp with |ωs−ωi|/ωp ∈ [0.70, 0.80] across the ¾ box; signal detuned by up to 6 spectral widths across the threshold contour): envelope, jsa_raw, both normalisations, JointSpectrum::jsa / jsi (Simpson divs ∈ {10,20,50}); at the centre of phase-matched setups also phasematch_singles_fiber_coupling and JointSpectrum::jsi_singles (2-D Simpson, divs ∈ {4,6,8})'
+LEVEL_NOTE += ' COMPOSED MODEL (notes/compose.md): the cmp_* K ops are NOT layered — their K line carries only the primitive setup (crystal id, angles, length, temperature, PM type, wavelengths, internal signal/idler angles, waists, waist positions, bandwidth, power, threshold, deff, signed poling period + window) and Spdc.Model.Compose recomputes the printed quantity through every layer model (Crystals → Index → Beam/Units → DeltaK → Poling → PM → Quad → Norm/Jsa → Singles); the real side is an SPDC rebuilt from exactly these primitives by Beam::new / PumpBeam::from / PeriodicPoling::new / SPDC::new (+ assign_optimum_idler for idler "auto"). Outside the composition (their RESULTS are primitives): Snell inverse, optimum_theta, optimum_poling_period.'
+CHECKER_MODULES = list(CHECKER_MODULES) + ["Spdc.Real.ComposeLemmas"]
+_families_layered = families
+
+
+def families(tier, seed):
+    return _families_layered(tier, seed) + [("compose", seed, 1500 if tier == "quick" else 10000, ["c07"])]
